@@ -73,9 +73,27 @@ use oxidd::{
     HasLevel, Manager, ManagerRef, Node, Subst,
 };
 
-const DEFAULT_LIB: &str = "/verif/harness/target-ffi/release/liboxidd_ffi_c.so";
-const FFI_TARGET_DIR: &str = "/verif/harness/target-ffi";
-const TMP_DIR: &str = "/verif/harness/target-ffi/tmp";
+/// `<harness>/target-ffi`, derived from the location of this executable (`<harness>/target/release/c19_capi`)
+/// so that a copy of /verif (tools/seed_eval.py) uses its own library build
+fn ffi_target_dir() -> String {
+    if let Ok(exe) = std::env::current_exe() {
+        if let Some(h) = exe.parent().and_then(|p| p.parent()).and_then(|p| p.parent()) {
+            if h.join("Cargo.toml").exists() {
+                return h.join("target-ffi").to_string_lossy().into_owned();
+            }
+        }
+    }
+    "/verif/harness/target-ffi".to_string()
+}
+fn default_lib() -> String {
+    format!("{}/release/liboxidd_ffi_c.so", ffi_target_dir())
+}
+fn tmp_dir() -> String {
+    format!("{}/tmp", ffi_target_dir())
+}
+fn repo_dir() -> String {
+    std::env::var("OXIDD_REPO").unwrap_or_else(|_| "/repo".to_string())
+}
 const NONE32: u32 = u32::MAX;
 
 // ------------------------------------------------------------------------------------------------
@@ -1904,11 +1922,12 @@ impl Real {
             rsl.push(r);
         }
         let any_invalid = cs.iter().any(|c| !c.ok());
-        std::fs::create_dir_all(TMP_DIR).ok();
+        let tmp_dir = tmp_dir();
+        std::fs::create_dir_all(&tmp_dir).ok();
         self.file_no += 1;
         let pid = std::process::id();
-        let cpath = format!("{TMP_DIR}/c-{pid}-{}.{}", self.file_no, if w[0] == "dot" { "dot" } else { "dddmp" });
-        let rpath = format!("{TMP_DIR}/r-{pid}-{}.{}", self.file_no, if w[0] == "dot" { "dot" } else { "dddmp" });
+        let cpath = format!("{tmp_dir}/c-{pid}-{}.{}", self.file_no, if w[0] == "dot" { "dot" } else { "dddmp" });
+        let rpath = format!("{tmp_dir}/r-{pid}-{}.{}", self.file_no, if w[0] == "dot" { "dot" } else { "dddmp" });
         let fnames: Vec<CString> = hs.iter().map(|h| CString::new(format!("f_{h}")).unwrap()).collect();
         let fptrs: Vec<*const c_char> = fnames.iter().map(|c| c.as_ptr()).collect();
         let mut err = std::mem::MaybeUninit::<CError>::uninit();
@@ -2110,7 +2129,7 @@ fn child_main(flags: &BTreeMap<String, String>) {
     std::panic::set_hook(Box::new(|info| {
         eprintln!("@panic {}", info);
     }));
-    let lib = flags.get("lib").cloned().unwrap_or_else(|| DEFAULT_LIB.to_string());
+    let lib = flags.get("lib").cloned().unwrap_or_else(default_lib);
     let ld = load(&lib).map(std::sync::Arc::new);
     let progress = std::sync::Arc::new(std::sync::atomic::AtomicU64::new(0));
     {
@@ -2221,8 +2240,8 @@ struct Proxy {
 fn build_library() -> Result<(), String> {
     let out = std::process::Command::new("cargo")
         .args(["build", "--release", "--offline", "-p", "oxidd-ffi-c"])
-        .current_dir("/repo")
-        .env("CARGO_TARGET_DIR", FFI_TARGET_DIR)
+        .current_dir(repo_dir())
+        .env("CARGO_TARGET_DIR", ffi_target_dir())
         .env_remove("RUSTFLAGS")
         .output()
         .map_err(|e| format!("cannot run cargo: {e}"))?;
@@ -2370,7 +2389,7 @@ impl Scenario for Proxy {
 }
 
 fn make(f: &BTreeMap<String, String>) -> Box<dyn Scenario> {
-    let lib = f.get("lib").cloned().unwrap_or_else(|| DEFAULT_LIB.to_string());
+    let lib = f.get("lib").cloned().unwrap_or_else(default_lib);
     let mut build_err = None;
     if !f.contains_key("no-build") {
         if let Err(e) = build_library() {
@@ -3000,7 +3019,7 @@ fn enumerated(w: &mut dyn Write, kind: &'static str) {
 
 /// does the doc comment of `oxidd_<kind>_manager_new` promise that capacity 0 means "no limit"?
 fn cap0_documented_unlimited(kind: &str) -> bool {
-    let src = std::fs::read_to_string(format!("/repo/crates/oxidd-ffi-c/src/{kind}.rs")).unwrap_or_default();
+    let src = std::fs::read_to_string(format!("{}/crates/oxidd-ffi-c/src/{kind}.rs", repo_dir())).unwrap_or_default();
     let Some(end) = src.find(&format!("fn oxidd_{kind}_manager_new(")) else { return false };
     let start = src[..end].rfind("\n\n").unwrap_or(0);
     let doc: Vec<&str> = src[start..end].lines().filter_map(|l| l.trim().strip_prefix("///")).flat_map(|l| l.split_whitespace()).collect();
